@@ -248,6 +248,35 @@ fn run_op(op: &Value) -> Value {
             let (_, r, s) = h::config_bits(&b);
             json!([r, s])
         }
+        "setters" => {
+            // [[name, bool arg, u32 arg], ..] applied in order to a fresh builder
+            let mut b = grex::RegExpBuilder::from(&["a"]);
+            for st in op["seq"].as_array().unwrap() {
+                let f = st[1].as_bool().unwrap_or(false);
+                let q = st[2].as_u64().unwrap_or(1) as u32;
+                match st[0].as_str().unwrap() {
+                    "digits" => { b.with_conversion_of_digits(); }
+                    "non_digits" => { b.with_conversion_of_non_digits(); }
+                    "spaces" => { b.with_conversion_of_whitespace(); }
+                    "non_spaces" => { b.with_conversion_of_non_whitespace(); }
+                    "words" => { b.with_conversion_of_words(); }
+                    "non_words" => { b.with_conversion_of_non_words(); }
+                    "repetitions" => { b.with_conversion_of_repetitions(); }
+                    "ignore_case" => { b.with_case_insensitive_matching(); }
+                    "capture_groups" => { b.with_capturing_groups(); }
+                    "escape" => { b.with_escaping_of_non_ascii_chars(f); }
+                    "verbose" => { b.with_verbose_mode(); }
+                    "no_start_anchor" => { b.without_start_anchor(); }
+                    "no_end_anchor" => { b.without_end_anchor(); }
+                    "no_anchors" => { b.without_anchors(); }
+                    "min_repetitions" => { b.with_minimum_repetitions(q); }
+                    "min_substring_length" => { b.with_minimum_substring_length(q); }
+                    other => panic!("unknown setter {}", other),
+                }
+            }
+            let (bits, r, s) = h::config_bits(&b);
+            json!([bits, r, s, h::test_cases(&b).len()])
+        }
         "build" => {
             let v: Vec<String> = op["cases"].as_array().unwrap().iter().map(s_of).collect();
             let mut b = grex::RegExpBuilder::from(&v);
